@@ -23,6 +23,7 @@ RULE_MODULES = [
     'rules_printers',
     'rules_rewrite',
     'rules_types',
+    'rules_simplify',
 ]
 
 COMMON_ASSUMPTIONS = [
